@@ -45,7 +45,14 @@ class R:
         return struct.unpack(">q", self.take(8))[0]
 
     def string(self):
-        """STRING / NULLABLE_STRING -> bytes or None"""
+        """STRING (not nullable) -> bytes"""
+        n = self.i16()
+        if n < 0:
+            raise ParseError("non-nullable STRING has length %r" % (n,))
+        return self.take(n)
+
+    def nstring(self):
+        """NULLABLE_STRING -> bytes or None"""
         n = self.i16()
         if n == -1:
             return None
@@ -172,7 +179,7 @@ def parse_request(data):
     key = r.i16()
     ver = r.i16()
     corr = r.i32()
-    client = r.string()
+    client = r.nstring()
     body = _BODY[(key, ver)](r) if (key, ver) in _BODY else None
     if (key, ver) not in _BODY:
         raise ParseError("unsupported api %r v%r" % (key, ver))
@@ -231,7 +238,7 @@ def _offset_commit_v1(r):
 
     def topic():
         name = r.string()
-        return (name, r.array(lambda: (r.i32(), r.i64(), r.i64(), r.string())))
+        return (name, r.array(lambda: (r.i32(), r.i64(), r.i64(), r.nstring())))
 
     return {"group": group, "generation": gen, "member": member, "topics": r.array(topic)}
 
